@@ -79,3 +79,61 @@ func VerifSession(args []string) {
 		vAssert(with[i].out == without[i].out, "session/later-input-prints-differently")
 	}
 }
+
+func init() {
+	verifHarness["VerifIncremental"] = VerifIncremental
+}
+
+func verifFeed(chunks []string, a, b int64) (string, string, int) {
+	nerr := 0
+	s := eval.NewState()
+	out := &strings.Builder{}  // what the program prints
+	echo := &strings.Builder{} // the REPL's echo of each chunk's value: not program output
+	s.Out = out
+	s.LogOut = out
+	s.NoLog = true
+	s.MaxDepth = 60
+	eval.VerifBindInt(s, "a", a)
+	eval.VerifBindInt(s, "b", b)
+	opts := Options{All: true, ShowEval: true, NoColor: true}
+	for _, c := range chunks {
+		_, panicked, errs, _ := EvalOne(context.Background(), s, c, echo, opts)
+		nerr += len(errs)
+		if panicked {
+			nerr++
+		}
+	}
+	g := &strings.Builder{}
+	_, _ = s.SaveGlobals(g)
+	return out.String(), g.String(), nerr
+}
+
+// VerifIncremental: feeding the top-level statements of a script in consecutive chunks to one persistent
+// session prints the same and leaves the same globals as evaluating the script in one go. args: statements...
+func VerifIncremental(args []string) {
+	a, b := vInt64("a"), vInt64("b")
+	whole := strings.Join(args, "\n")
+	var chunks []string
+	cur := args[0]
+	for _, st := range args[1:] {
+		if vRange("split", 0, 1) == 1 {
+			chunks = append(chunks, cur)
+			cur = st
+		} else {
+			cur = cur + "\n" + st
+		}
+	}
+	chunks = append(chunks, cur)
+	if len(chunks) > 1 {
+		vReach("script split")
+	}
+	o1, g1, e1 := verifFeed([]string{whole}, a, b)
+	if e1 > 0 {
+		vReach("script not error-free for these values (outside the property)")
+		return
+	}
+	o2, g2, e2 := verifFeed(chunks, a, b)
+	vAssert(e2 == 0, "incremental/error-only-when-split")
+	vAssert(o1 == o2, "incremental/printed-output-differs")
+	vAssert(g1 == g2, "incremental/final-globals-differ")
+}
